@@ -19,7 +19,7 @@ CLAIMED["C03"] = dict(
     text="Proof: Policy.Match returns true exactly when every statement passes (loop invariant); verifyArgs aggregates the policies of every delegation "
          "(invariants over append) and returns nil only if every statement of every delegation's policy passes on the argument node; "
          "ExecutionAllowedWithArgsHook is verified to check the arguments returned by the hook. Monotonicity follows from the post-condition being a conjunction over all links and statements.",
-    note=CHAIN_NOTE + " Undecided and not claimed: make(policy.Policy, 0, count) needs the sum of policy lengths to stay below 2^63.", design="DESIGN.md §3 C03")
+    note=CHAIN_NOTE + " Input bound (part of the stated input validity wfLoaded): at most 2^20 proofs with at most 2^32 statements each, which keeps the statement count used by make(policy.Policy, 0, count) inside int.", design="DESIGN.md §3 C03")
 CLAIMED["C04"] = dict(
     text="Proof: both IsValidAt methods are verified against the window specification for every instant and every combination of present/absent bounds "
          "(strictly inside => valid, strictly outside => invalid); verifyTimeBoundAt is verified with a loop invariant to return nil only if the invocation and "
@@ -28,7 +28,7 @@ CLAIMED["C04"] = dict(
 CLAIMED["C05"] = dict(
     text="Proof of the converse direction: for loadProofs, verifyProofs, verifyTimeBoundAt, verifyArgs, Policy.Match and executionAllowed the post-condition "
          "'spec holds => err == nil' is verified; allowedSpec does not mention audience, metadata, nonce, cause or issue time, so the proved equivalence is the independence statement.",
-    note=CHAIN_NOTE + " Undecided and not claimed: the makeslice bound in verifyArgs (see C03).", design="DESIGN.md §3 C01/C02/C05")
+    note=CHAIN_NOTE + " Input bound: see C03 (proof list and policy sizes).", design="DESIGN.md §3 C01/C02/C05")
 CLAIMED["C15"] = dict(
     text="Proof: Command.Covers and command.Parse are verified, for every pair of strings, against spec functions taken from the property "
          "(coversSpec = textual prefix + segment boundary; validCmd = leading slash, no trailing slash, lower-case fixed point); "
@@ -44,12 +44,12 @@ CLAIMED["C13"] = dict(
     note="Nothing assumed beyond the common base (strings are byte sequences). Not yet under contract: the `like` arm of matchStatement that feeds Match (selected node must be a string) - part of C11.",
     design="DESIGN.md §3 C13")
 CLAIMED["C20"] = dict(
-    text="Proof of the frame condition: 58 read-only operations (token accessors, IsValidAt/IsValidNow, ExecutionAllowed / ExecutionAllowedWithArgsHook and the three verify* stages, "
-         "loadProofs, Policy.Match / PartialMatch, glob.Match, resolveSliceIndices, Args.{GetNode,Iter,ToIPLD,Equals,String,ReadOnly,Clone,Validate}, Meta.{Get*,Iter,Equals,String,ReadOnly,Clone}) "
+    text="Proof of the frame condition: 85 read-only operations (token accessors, IsValidAt/IsValidNow, ExecutionAllowed / ExecutionAllowedWithArgsHook and the three verify* stages, "
+         "loadProofs, Policy.Match / PartialMatch, glob.Match, resolveSliceIndices, Args.{GetNode,Iter,ToIPLD,Equals,String,ReadOnly,Clone,Validate}, Meta.{Get*,Iter,Equals,String,ReadOnly,Clone}, sealing and encoding (toIPLD, Encode, ToSealed, ToSealedWriter of both token types: they change only the ghost signing count and the caller's writer), statementToIPLD / statementsToIPLD, Selector.String, Command.Join / Segments) "
          "carry `assigns nothing`: for every store, map update, in-place append and every callee with a non-empty assigns set the obligation 'the written location was not allocated on entry' is discharged. "
          "By the meta-theorem of DESIGN.md §3 C20 this gives data-race freedom and repeatability for every interleaving.",
     note="Trusted: the frame => race-freedom meta-theorem; dependency calls on these paths (qp builders, printer.Sprint, DeepEqual, sort.Strings writes only its argument, slices.Clone returns fresh memory) write nothing reachable from their arguments; "
-         "function values passed in by the caller (iterator yield, args hook) are effect-free. Not yet under contract: ToSealed*/Encode*/toIPLD, Policy.String/ToIPLD, Selector.Select/String, DID.*, Command.Join/Segments, container.Reader getters.",
+         "function values passed in by the caller (iterator yield, args hook) are effect-free. Not yet under contract for the frame: Policy.String, Selector.Select (verified inlined in its callers), the DID accessors other than Parse / String, container.Reader getters.",
     design="DESIGN.md §3 C20")
 CLAIMED["C06"] = dict(
     text="Proof of a relational post-condition over uninterpreted dependency functions (a data-flow theorem about the real bodies): envelope.Inspect is verified (iterator loop invariants) "
@@ -123,8 +123,9 @@ CLAIMED["C14"] = dict(
          "Selector.String is verified to print the recorded texts joined; hence (Parse post-condition `roundtrip`, by induction lemmas) printing a parsed selector reproduces the input whenever nothing was normalised. "
          "Proof for the policy side: FromIPLD / statementFromIPLD / statementsFromIPLD are verified (mutual recursion with a termination measure on the node) to return an error or a *faithful reading* of the node "
          "(relation reprs, defined by structural recursion: exact tuple length per operator, the operator, literal and pattern taken over unchanged, nested statements faithful readings of the nested nodes, one per element).",
-    note="Not proved (honest gaps): policy write-back (statementsToIPLD / statementToIPLD) is under contract at the level of shape and operator only, so 'read then written back is deep-equal' is decided for lengths and operators, "
-         "not for leaf values; the selector stored in a decoded statement is not related to the node's text inside reprs; behavioural equality after a round trip is not under contract. "
+    note="Policy write-back (statementsToIPLD / statementToIPLD) is verified to produce a node of which the statement is a faithful reading (same relation reprs), so a policy and its decoded re-encoding are faithful readings of one node: "
+         "equal operators, lengths, literals and patterns at every depth — that corollary (an induction over two statement trees) is on paper. Not proved (honest gaps): the selector stored in a statement is not related to the node's text inside reprs; "
+         "behavioural equality after a round trip is not under contract. "
          "Assumed: what the three regular expressions guarantee about a matching text (first characters, presence of ':') — `given` clauses that hold only for the exact pattern text found in the package initialiser "
          "(an edited pattern loses them); the definitional unfolding of reprs at the decoder's return points (statements are immutable once built); strconv / strings helpers through stubs.",
     design="DESIGN.md §3 C14, §7")
